@@ -34,6 +34,12 @@ func aliasHistory(t *testing.T) {
 		if refused {
 			hx.Class("alias-history:agent-refuses-registrations")
 		}
+		// ... or answers deregistrations with an error (it is going down together with fabio)
+		deregFails := rapid.IntRange(0, 2).Draw(t, "agent-fails-deregistrations") == 0
+		fc.SetAgentRefusesDeregister(deregFails)
+		if deregFails {
+			hx.Class("alias-history:agent-fails-deregistrations")
+		}
 		be, err := consul.NewBackend(cfg)
 		if err != nil {
 			t.Fatalf("VERIF-INCONCLUSIVE backend: %v", err)
